@@ -22,7 +22,7 @@ TEXT = {
  "C13": ("all 64 procedures from the service descriptors x generated identifier picks x 12 credentials over raw Connect; victim state byte-identical, no planted secret in any response, admin/cluster credentials enforced, rotated keys dead; owner's calls on a control project for non-vacuity", "property-based testing (rapid) over an enumerated procedure set"),
  "C14": ("stack model of normalised (before, after) contents over the content alphabet with nested undo/redo on replicas carrying tombstones; robustness stratum; peer application of produced changes; small-scope enumeration in thorough", "property-based testing (rapid): stack model + enumeration"),
  "C15": ("enumerated sub-scope (406 200 words: 2 clients, one edit each, undo/redo, all interleavings, <=3 syncs) + random strata incl. undo after GC; C01 oracle; F6/F10/F11/F48 excluded by construction", "small-scope exhaustive enumeration + rapid"),
- "C16": ("generated parallel workloads (clients x documents, background compaction/history views/housekeeping, snapshot storms) under the race detector with a supervising parent process; no race, no deadlock (watchdog + goroutine dump), C01/C04 oracles on the outcome, no goroutine leak", "property-based testing (rapid) of parallel workloads under -race"),
+ "C16": ("generated parallel workloads (clients x documents, background compaction/history views/housekeeping, snapshot storms) under the race detector with a supervising parent process; no race, no deadlock (watchdog + goroutine dump), C01/C04 oracles on the outcome, no goroutine leak; lock-discipline recorder on every named-lock event (hook H3: per-goroutine order doc->pull->attachment->push, no re-acquisition) with seeded yield injection at lock boundaries and storage calls; generated three-request schedules owned through the hook (park/second/writer/release) that must all return", "property-based testing (rapid) of parallel workloads and owned schedules under -race, lock-order invariant over the recorded lock events"),
  "C17": ("generated concurrent subscribe/unsubscribe/publish scripts directly on PubSub under -race with entry/exit stamps; every draining subscriber is told (or closed) about publishes after its Subscribe; no leak, no panic; unsubscribe-vs-subscribe race loop", "property-based testing (rapid) of concurrent scripts under -race"),
  "C18": ("generated YSON literals (hostile strings, all primitives, counters incl. dedup registers, attributed text/trees) and reachable documents: SetYSON(FromCRDT(d)) round trip, stored-change round trip, textual Unmarshal(Marshal), server revision restore and compaction", "property-based testing (rapid): grammar-based generation + round trips"),
  "C19": ("upstream's five operation x range matrices as data x both sync orders x optional third snapshot-fed client = 6368 named cases through the real server, exhaustive in both tiers", "exhaustive enumeration of a finite case matrix"),
